@@ -403,6 +403,102 @@ Example C06_every_entry_nonvacuous :
   = Some (fst (p2_loop (fun st : nat => st) toy_p2 true false false 7 0 0 [])).
 Proof. vm_compute. split; reflexivity. Qed.
 
+(* ---- loop skeleton x algebra for the algorithms that report a shortcut value inside a one-value-per-iteration loop (round 5) ----
+   HOOI (tucker / partial_tucker without mask; iterate = the factor matrices, core recomputed as X x U^T, reported quantity
+   norm^2 - norm(core)^2): for EVERY oracle whose updates return column-orthonormal factors (the SVD contract), every stop pattern and
+   either record / callback ordering, EVERY recorded value is the squared residual, from scratch, of the Tucker tensor returned by the run
+   cut after that iteration; every commutative ring, order, shape, multilinear rank *)
+Theorem C06_hooi_loop_reports_true_errors : forall (F : Type) (Op : fops F),
+  ring_theory (f0 Op) (f1 Op) (fadd Op) (fmul Op) (fsub Op) (fopp Op) (@eq F) ->
+  forall (s rs : list nat) (X : list nat -> F)
+         (upd : nat -> list (nat -> nat -> F) -> list (nat -> nat -> F)) (stop cb_stop : nat -> bool) (record_before_callback : bool),
+  (forall it us, orthonormal Op s rs (upd it us)) ->
+  let Or := mkS upd stop cb_stop (fun us => us) in
+  forall n init j, j < length (snd (s_loop (hooi_fast Op s rs X) Or record_before_callback false n 0 init [])) ->
+  nth_error (snd (s_loop (hooi_fast Op s rs X) Or record_before_callback false n 0 init [])) j
+  = Some (dist2 Op s X (tucker_entry Op rs (project Op s X (fst (s_loop (hooi_fast Op s rs X) Or record_before_callback false (S j) 0 init [])))
+                                      (fst (s_loop (hooi_fast Op s rs X) Or record_before_callback false (S j) 0 init [])))).
+Proof. exact @hooi_loop_reports_true_errors. Qed.
+Print Assumptions C06_hooi_loop_reports_true_errors.
+(* tensor-ring ALS (iterate = the cores; reported quantity = squared residual of the least-squares sub-problem of the last mode): for EVERY
+   oracle whose updates keep the number of cores and the ring closure, every recorded value is the squared residual of the ring of its iteration *)
+Theorem C06_tr_loop_reports_true_errors : forall (F : Type) (Op : fops F),
+  ring_theory (f0 Op) (f1 Op) (fadd Op) (fmul Op) (fsub Op) (fopp Op) (@eq F) ->
+  forall (s : list nat) (X : list nat -> F) (r0 : nat)
+         (upd : nat -> list (@core F) -> list (@core F)) (stop cb_stop : nat -> bool) (record_before_callback : bool),
+  0 < length s ->
+  (forall it cores, length (upd it cores) = length s /\ endbond r0 (map (fun c => (fst c, fun a b => snd c a 0 b)) (upd it cores)) = r0) ->
+  let Or := mkS upd stop cb_stop (fun c => c) in
+  let fast := fun cores => ls_residual2 Op s X r0 cores (length s - 1) in
+  forall n init j, j < length (snd (s_loop fast Or record_before_callback false n 0 init [])) ->
+  nth_error (snd (s_loop fast Or record_before_callback false n 0 init [])) j
+  = Some (dist2 Op s (tr_entry Op r0 (fst (s_loop fast Or record_before_callback false (S j) 0 init []))) X).
+Proof. exact @tr_loop_reports_true_errors. Qed.
+Print Assumptions C06_tr_loop_reports_true_errors.
+(* PARAFAC2 (iterate = (projections, A * weights, B, C); reported quantity = the slice-wise expansion): for EVERY oracle (updates, line-search
+   jumps with accept / reject decisions, stops, any normalisation that keeps the value of the expansion) every recorded value is
+   sum_i || X_i - B_i C^T ||^2, from scratch, of the iterate returned by the run cut after that iteration; no hypothesis on the projections *)
+Theorem C06_parafac2_loop_reports_true_errors : forall (F : Type) (Op : fops F),
+  ring_theory (f0 Op) (f1 Op) (fadd Op) (fmul Op) (fsub Op) (fopp Op) (@eq F) ->
+  forall (I K Rk : nat) (J : nat -> nat) (X : nat -> nat -> nat -> F) (Or : p2oracle (p2_state (F := F))) (ls normalize : bool),
+  (forall st, p2_fast_of Op I K Rk J X (p2_norm Or st) = p2_fast_of Op I K Rk J X st) ->
+  forall n init j, j < length (snd (p2_loop (p2_fast_of Op I K Rk J X) Or ls normalize false n 0 init [])) ->
+  nth_error (snd (p2_loop (p2_fast_of Op I K Rk J X) Or ls normalize false n 0 init [])) j
+  = Some (p2_true_of Op I K Rk J X (fst (p2_loop (p2_fast_of Op I K Rk J X) Or ls normalize false (S j) 0 init []))).
+Proof. exact @p2_loop_reports_true_errors. Qed.
+Print Assumptions C06_parafac2_loop_reports_true_errors.
+(* the instrumented PARAFAC2 loop that Corr/C06.v:KP2Events compares event by event with real runs (projections, inner update, error
+   computations, cp_normalize) IS the loop of the theorems above: erasing its events gives p2_loop, for every oracle *)
+Theorem C06_parafac2_instrumented_loop_is_loop : forall (St E : Type) (err : St -> E) (Or : p2oracle St) (ls normalize : bool)
+  (n it : nat) (cur : St) (errs : list E) (tr : list nat),
+  fst (p2_loop_tr err Or ls normalize n it cur errs tr) = p2_loop err Or ls normalize false n it cur errs.
+Proof. exact @p2_loop_tr_erase. Qed.
+Print Assumptions C06_parafac2_instrumented_loop_is_loop.
+Example C06_parafac2_events_nonvacuous : p2_events true true 7 =
+  [5; 10; 1; 2; 5; 10; 1; 2; 5; 10; 1; 2; 5; 10; 1; 2; 5; 10; 1; 2; 5; 10; 1; 2; 5; 10; 2; 5; 2; 1].
+Proof. vm_compute. reflexivity. Qed.
+(* the normalisation hypothesis of the PARAFAC2 loop theorems in ring form: rescaling the columns of B and C with A * weights absorbing the
+   scales (what cp_normalize does to (weights, [A, B, C]) as seen by the error computation) keeps the residual from scratch and the slice-wise
+   expansion; any number / heights of slices, any rank, any projections *)
+Theorem C06_parafac2_rescaling_preserves_error : forall (F : Type) (Op : fops F),
+  ring_theory (f0 Op) (f1 Op) (fadd Op) (fmul Op) (fsub Op) (fopp Op) (@eq F) ->
+  forall (I K Rk : nat) (J : nat -> nat) (X P : nat -> nat -> nat -> F) (A A' Bm Bm' C C' : nat -> nat -> F) (db dc : nat -> F),
+  (forall q r, Bm q r = fmul Op (db r) (Bm' q r)) -> (forall k r, C k r = fmul Op (dc r) (C' k r)) ->
+  (forall i r, A' i r = fmul Op (A i r) (fmul Op (db r) (dc r))) ->
+  p2_err2_true Op I K Rk J X P A' Bm' C' = p2_err2_true Op I K Rk J X P A Bm C /\
+  p2_err2_fast Op I K Rk J X P A' Bm' C' (p2_tmp_proj Op Rk J X P A' Bm') = p2_err2_fast Op I K Rk J X P A Bm C (p2_tmp_proj Op Rk J X P A Bm).
+Proof. exact @p2_rescale_both. Qed.
+Print Assumptions C06_parafac2_rescaling_preserves_error.
+(* non-negative Tucker variants with normalize_factors=True (explicit residual recorded, then tucker_normalize, also on the exits), over the reals
+   with the transcribed tucker_normalize (column norms, zero norms replaced by 1, core multiplied by the norms): for EVERY update rule, stop
+   pattern, record / callback ordering, with or without normalisation, every recorded value is the squared residual of the iterate returned by
+   the run cut after that iteration; no hypothesis about the normalisation is left *)
+Theorem C06_tucker_loop_reports_true_errors_with_tucker_normalize : forall (s rs : list nat) (X : list nat -> R)
+  (upd : nat -> tk_state -> tk_state) (stop cb_stop : nat -> bool) (record_before_callback normalize : bool),
+  length rs = length s ->
+  let Or := mkS upd stop cb_stop (tucker_normalize_R s) in
+  forall n init j, j < length (snd (s_loop (tk_err2 s rs X) Or record_before_callback normalize n 0 init [])) ->
+  nth_error (snd (s_loop (tk_err2 s rs X) Or record_before_callback normalize n 0 init [])) j
+  = Some (tk_err2 s rs X (fst (s_loop (tk_err2 s rs X) Or record_before_callback normalize (S j) 0 init []))).
+Proof. exact tucker_loop_reports_true_errors_R. Qed.
+Print Assumptions C06_tucker_loop_reports_true_errors_with_tucker_normalize.
+(* non-vacuity: an oracle that returns the signed permutation factors of C06_hooi_nonvacuous satisfies the HOOI hypothesis; 3 iterations record
+   [10; 10; 10] = the residual from scratch.  The cores of C06_tr_nonvacuous satisfy the closure hypothesis. *)
+Example C06_composed_loops_nonvacuous :
+  let us := matsT Zops [mk [2;2] [0;1;-1;0]%Z; mk [2;1] [0;1]%Z] in
+  let X := tfun Zops (mk [2;2] [1;2;3;4]%Z) in
+  let Or := mkS (fun _ _ => us) (fun _ => false) (fun _ => false) (fun u => u) in
+  (forall (it : nat) (u : list (nat -> nat -> Z)), orthonormal Zops [2;2] [2;1] ((fun _ _ => us) it u)) /\
+  snd (s_loop (hooi_fast Zops [2;2] [2;1] X) Or true false 3 0 [] []) = [10; 10; 10]%Z /\
+  hooi_true Zops [2;2] [2;1] X us = 10%Z /\
+  (let cores := map (core_of Zops) [mk [2;2;1] [1;2;0;1]%Z; mk [1;2;2] [1;0;2;1]%Z; mk [2;2;2] [1;0;0;1;1;1;0;2]%Z] in
+   length cores = 3 /\ endbond 2 (map (fun c => (fst c, fun a b => snd c a 0 b)) cores) = 2).
+Proof.
+  cbv zeta. split; [|split; [vm_compute; reflexivity | split; [vm_compute; reflexivity | split; vm_compute; reflexivity]]].
+  intros _ _. simpl. repeat split; intros a b Ha Hb;
+    repeat (destruct a as [|a]; [|try lia]); repeat (destruct b as [|b]; [|try lia]); try lia; vm_compute; reflexivity.
+Qed.
+
 (* ---- non-vacuity: the hypotheses are satisfiable and the model computes *)
 Example C06_ring_Z : ring_theory (f0 Zops) (f1 Zops) (fadd Zops) (fmul Zops) (fsub Zops) (fopp Zops) (@eq Z).
 Proof. exact Zth. Qed.
